@@ -294,12 +294,73 @@ def filled_zone_layouts(ctx):
             ctx.nt(("filled-zone-history", tname))
 
 
+def index_after_analyses(ctx):
+    """the zone index of a layout is asked about grids that are NOT its zones (filled copies, views, shifted copies) before and after the
+    package's own analyses and passes have worked with that layout: a name it gives must map to exactly that grid, and the analyses are
+    readers of the layout"""
+    from bloqade.geometry.dialects.grid import Grid
+    from bloqade.shuttle.analysis.zone import ZoneAnalysis
+    from bloqade.shuttle.arch import ArchSpec, Layout
+    from bloqade.shuttle.dialects.filled.types import FilledGrid
+    from bloqade.shuttle.passes.hint_zone import HintZone
+    from gen import kernels
+    traps = Grid.from_positions([0.0, 2.0, 4.0, 6.5], [0.0, 3.0, 6.0])
+    aux = Grid.from_positions([20.0, 21.0, 22.0], [1.0, 2.0, 3.0, 4.0])
+    L = Layout({"traps": traps, "aux": aux, "fz": FilledGrid.vacate(Grid.from_positions([50.0, 51.0], [0.0, 1.0]), [(0, 0)])}, {"traps"}, {"traps"}, {"aux"},
+               special_grid={"park": Grid.from_positions([-4.0, -2.0], [0.5, 1.5])})
+    S = ArchSpec(layout=L)
+    # "that grid": the same sites in the same order, filled or not alike, the same vacancies (a complete view of a zone IS that grid)
+    same = lambda a, b: hasattr(a, "vacancies") == hasattr(b, "vacancies") and tuple(a.shape) == tuple(b.shape) and list(a.positions) == list(b.positions) \
+        and sorted(getattr(a, "vacancies", ())) == sorted(getattr(b, "vacancies", ()))
+    probes = {"zone traps": traps, "zone aux": aux, "zone fz": L.static_traps["fz"], "special park": L.special_grid["park"],
+              "filled copy of traps": FilledGrid.vacate(traps, [(0, 0)]), "filled copy of traps, no vacancy": FilledGrid.vacate(traps, []),
+              "filled copy of aux": FilledGrid.vacate(aux, [(1, 1), (2, 3)]), "plain grid under fz": L.static_traps["fz"].parent,
+              "fz with another vacancy": FilledGrid.vacate(L.static_traps["fz"], [(1, 1)]), "view of traps": traps[0:2, 0:2], "full view of traps": traps[0:4, 0:3],
+              "shifted traps": traps.shift(1.0, 0.0), "equal grid built again": Grid.from_positions([0.0, 2.0, 4.0, 6.5], [0.0, 3.0, 6.0])}
+
+    def ask(when):
+        out = {}
+        for name, g in probes.items():
+            zid = L.get_zone_id(g)
+            out[name] = zid
+            ctx.evaluations += 1
+            if zid is not None:
+                back = [t[zid] for t in (L.static_traps, L.special_grid) if zid in t]
+                if not any(same(b, g) for b in back):
+                    ctx.fail({"kind": "zone-index", "layout": "index asked about foreign grids", "probe": name, "lookup": zid, "when": when},
+                             {"index_after_analyses": True, "probe": name, "when": when},
+                             f"{when}: get_zone_id({name}) = {zid!r}, but zone {zid!r} is not that grid")
+        return out
+    before = ask("before any analysis")
+    src = ('@move{DEC}\ndef main(c: bool):\n    z = spec.get_static_trap(zone_id="traps")\n    a = filled.vacate(z, [(0, 0)])\n    b = filled.vacate(spec.get_static_trap(zone_id="aux"), [(1, 1), (2, 3)])\n'
+           '    f = spec.get_static_trap(zone_id="fz")\n    p = filled.get_parent(f)\n    v = z[0:2, 0:2]\n    w = grid.shift(z, 1.0, 0.0)\n'
+           '    gate.local_rz(0.5, a)\n    gate.local_rz(0.5, b)\n    gate.local_rz(0.5, p)\n    gate.local_rz(0.5, v)\n    gate.local_rz(0.5, w)\n    gate.local_rz(0.5, filled.vacate(f, [(1, 1)]))\n')
+    try:
+        for dec in ("", "(arch_spec=S)", "(arch_spec=S, aggressive=True)"):
+            m = kernels.define(src.replace("{DEC}", dec), S=S)["main"]
+            HintZone(m.dialects, arch_spec=S)(m)
+            ZoneAnalysis(m.dialects, arch_spec=S).run_analysis(m)
+            from vcommon import events
+            events.run_events(m, (True,), S, plain="arch_spec" in dec)
+    except Exception as e:
+        ctx.obligation("the analyses run on a kernel over the probed layout", False, f"{type(e).__name__}: {e}"[:200])
+    after = ask("after HintZone / ZoneAnalysis / execution used the layout")
+    for name in probes:
+        if before[name] != after[name]:
+            ctx.fail({"kind": "zone-index", "layout": "index asked about foreign grids", "probe": name, "lookup": after[name], "when": "changed by the analyses"},
+                     {"index_after_analyses": True, "probe": name, "when": "changed"},
+                     f"get_zone_id({name}) was {before[name]!r} before the package's analyses used the layout and is {after[name]!r} afterwards")
+        else:
+            ctx.nt(("index-probe", name))
+
+
 def run(ctx):
     from bloqade.shuttle.arch import ArchSpec
     reflect_fields(ctx)
     source_reading(ctx)
     hash_collision_pairs(ctx)
     filled_zone_layouts(ctx)
+    index_after_analyses(ctx)
     ctx.rule = ("layouts over a pool of 6 grids (incl. a view equal to its parent and a grid with an empty axis) and names a,b,c,s,t with every "
                 "field varied independently (static/special tables incl. insertion order, three name sets): all pairs for ==/hash/model, all "
                 "comparable triples for transitivity; constructor acceptance, get_zone_id of every pool grid, bounding_box; every layout returned "
@@ -499,6 +560,11 @@ def replay(data):
         def pick(s, a, b): return b
     c = C()
     c.count = lambda *a: None
+    if inp.get("index_after_analyses"):
+        c.obligation = lambda *a: None
+        index_after_analyses(c)
+        hit = [f for f in c.fails if inp.get("probe", "") in f]
+        return bool(hit), "; ".join(hit[:2])[:300] or "the index only names grids that are its zones"
     if "filled_zone_layouts" in inp:
         filled_zone_layouts(c)
         a, b = inp["filled_zone_layouts"]
